@@ -70,6 +70,8 @@ enum {
   MYTH_VS_FL_PUSH, MYTH_VS_FL_POP,
   /* myth_spinlock_func.h: after the unlocking store (accesses that follow a release) */
   MYTH_VS_SPIN_UNLOCKED,
+  /* cooperative fault point ("buggify"): a usually-successful, legally-failing operation fails */
+  MYTH_VB_WSQ_TRYLOCK,
   MYTH_VS_N_SITES
 };
 
@@ -86,6 +88,7 @@ int  myth_verif_barrier_wait(void * barrier, int n);
 int  myth_verif_random(int min, int max, int * result);
 int  myth_verif_gettime(struct timespec * ts);
 int  myth_verif_queue_size(int dflt);
+int  myth_verif_buggify(int site);
 void myth_verif_alloc(int kind, void * p, size_t size, int rank);
 void myth_verif_free(int kind, void * p, size_t size, int rank, void * thread);
 extern unsigned long long (*myth_verif_dr_clock)(void);
@@ -108,6 +111,7 @@ extern unsigned long long (*myth_verif_dr_clock)(void);
 #define MYTH_VERIF_POINT(site)       myth_verif_point(site)
 #define MYTH_VERIF_SPIN(site)        myth_verif_spin(site)
 #define MYTH_VERIF_PROBE(site, p)    myth_verif_probe(site, (const void *)(p))
+#define MYTH_VERIF_BUGGIFY(site)     myth_verif_buggify(site)
 #define MYTH_VERIF_ALLOC(k, p, s, r) myth_verif_alloc(k, (void *)(p), s, r)
 #define MYTH_VERIF_FREE(k, p, s, r, t) myth_verif_free(k, (void *)(p), s, r, (void *)(t))
 
@@ -116,6 +120,7 @@ extern unsigned long long (*myth_verif_dr_clock)(void);
 #define MYTH_VERIF_POINT(site)       ((void)0)
 #define MYTH_VERIF_SPIN(site)        ((void)0)
 #define MYTH_VERIF_PROBE(site, p)    ((void)0)
+#define MYTH_VERIF_BUGGIFY(site)     0
 #define MYTH_VERIF_ALLOC(k, p, s, r) ((void)0)
 #define MYTH_VERIF_FREE(k, p, s, r, t) ((void)0)
 
